@@ -247,3 +247,18 @@ Definition eoracle (c : ecase) : bool :=
               && N.eqb oerr (N.of_nat (length hs)))
       else
         match omw, oh with [], [] => N.eqb (fst oack) 0 | _, _ => false end).
+
+(** ** Constructors used by the generated case files (typed, so that the literals elaborate fast) *)
+Definition mkv (l f c h : bool) (r : list N) (ra ro : bool) (via : list N) : view :=
+  (l, f, c, h, r, ra, ro, via).
+Definition mkacase (chain : list (N * N)) (calls : list (N * view)) (hviews : list view) (resp : N)
+  (mk mi mc : N) (post final : view) (resp_sid probe : bool) (trap anyh final_evt : N)
+  (hwaited : bool) : acase :=
+  (chain, calls, hviews, resp, (mk, mi, mc), post, final, (resp_sid, probe, trap, anyh, final_evt, hwaited)).
+Definition mkecase (hs : list (N * bool)) (chain : list bool) (with_ack : bool) (name : bytes)
+  (sent : list val) (dec_ok : bool) (omw : list (N * bytes * list val)) (oh : list (N * list val))
+  (oerr : N) (nack : N) (ack_ok : bool) (done : bool) : ecase :=
+  (hs, chain, with_ack, name, sent, dec_ok, omw, oh, oerr, (nack, ack_ok), done).
+
+Definition oracle_and_agree (c : acase) : bool := oracle c && agree c.
+Definition eoracle_and_eagree (c : ecase) : bool := eoracle c && eagree c.
